@@ -135,9 +135,16 @@ fn calc_max_day_cost_per_sec(all_deltas: &Vec<TxDelta>) -> MaxDayCosts {
 
     // Go through each day and populate the ACB for every seen security in each MaxSingleDayCosts
     let mut last_acbs = HashMap::<Security, GreaterEqualZeroDecimal>::new();
+    // The day totals are accumulated as the securities are observed, and decimal
+    // addition rounds past 28 significant digits, so go through the securities
+    // in a fixed order (not the random order of the set), or the last digit of
+    // a total can vary from run to run.
+    let mut sorted_securities: Vec<&Security> = security_set.iter().collect();
+    sorted_securities.sort();
     for day in sorted_days {
         let max_costs = max_costs_by_day.get_mut(&day).unwrap();
-        for sec in &security_set {
+        for sec in &sorted_securities {
+            let sec: &Security = sec;
             let last_acb = *closing_costs_by_day
                 .get(&day)
                 .and_then(|closing| closing.get(sec))
